@@ -40,6 +40,7 @@ type Partial struct {
 	Counters     map[string]int64   `json:"counters"`
 	Violations   []Witness          `json:"violations"`
 	NViolations  int                `json:"n_violations"`
+	ViolKinds    map[string]int     `json:"viol_kinds,omitempty"`
 	Known        map[string]int     `json:"known"`
 	KnownSample  map[string]Witness `json:"known_sample"`
 	Inconclusive []string           `json:"inconclusive"`
@@ -221,6 +222,10 @@ func (c *Ctx) Violate(kind, class, detail string, input any) {
 		}
 	}
 	c.P.NViolations++
+	if c.P.ViolKinds == nil {
+		c.P.ViolKinds = map[string]int{}
+	}
+	c.P.ViolKinds[kind+"/"+class]++
 	if len(c.P.Violations) < 10 {
 		c.P.Violations = append(c.P.Violations, w)
 	}
